@@ -283,8 +283,9 @@ INT_LITS = [(0, 0), (1, 0), (2, 0), (3, 0), (4, 0), (5, 0)]
 class Gen:
     """Expression generator over one schema.  Paths follow the schema most of the time so that results are non-empty."""
 
-    def __init__(self, rng, schema, vals=None):
+    def __init__(self, rng, schema, vals=None, always_prefix=False):
         self.rng, self.schema = rng, schema
+        self.always_prefix = always_prefix
         self.vals = vals or []
         self.names = []
         self._collect(schema)
@@ -324,6 +325,7 @@ class Gen:
         # an unprefixed name means "the parent's module" on libyang's hash path and "any module" on its generic path (F58):
         # names defined by both modules under one parent always carry a prefix on the child axis
         if pfx is None and axis == "child" and n["name"] in CONFLICT: pfx = n["mod"]
+        if self.always_prefix: pfx = n["mod"]
         return ("n", pfx, n["name"]), (cur + [n] if cur is not None and n["kind"] != "?" else None)
 
     def step(self, cur, depth, allow_ds=True, first=False, axes=None):
